@@ -27,6 +27,7 @@ RULE = (
     ' Round 6: `keys=collide` (ids whose digits concatenate equally) and `prior` (earlier quiet wakes already delivered the racing values).'
     ' Round 7: `reuse` senders re-send the object an earlier wake delivered.'
     ' Round 8: `keys=types` (cover up/down/stop), `listener=persistent`.'
+    ' Round 9: `debug_log`; sent Message objects are not kept alive by the harness.'
 )
 ASSUMPTIONS = [
     "suspension points of send/flush are transport writes (plus whatever the loop needs to settle: a schedule step waits until six loop iterations pass without progress)",
